@@ -1006,8 +1006,8 @@ def evalDefine (cfg : ECfg) (al : List (Str × Val)) : Nat → List Assign → N
           mRaise { cls := "ValueError", msg := [] }
         else do
           (names.zip vs).forM (fun (nm, x) => setVar nm.str x)
-          -- global tuple define: `rcontext[name] = __value` stores the *whole* value under each name
-          if !local_ then names.forM (fun nm => setGlobal nm.str v) else pure ()
+          -- global tuple define: `rcontext[name] = econtext[name]`, each name its own item (D-05g fixed in /repo)
+          if !local_ then (names.zip vs).forM (fun (nm, x) => setGlobal nm.str x) else pure ()
       -- later assignments' backups are restored first (reverse order)
       evalDefine cfg al f rest node (bk ++ backups)
 def evalRepeat (cfg : ECfg) (al : List (Str × Val)) : Nat → Str → List Tok → Bool → Str → Node → List Val → Nat → RM Unit
